@@ -226,9 +226,14 @@ def run(ctx):
     missing = sorted(k for k in pub if k not in SP.SPECS and k not in SP.EXCLUDED)
     stale = sorted(k for k in list(SP.SPECS) + list(SP.EXCLUDED) if k not in pub)
     if missing or stale:
+        static = ''
+        if res is not None:
+            v0 = alias_prog.verdicts(res)
+            static = '; alias checker on the callables without spec (every parameter taken as an array): %s' % ', '.join(
+                '%s %r' % (k, v0.get(k) or v0.get(k + '.__init__') or res['failed'].get(k, 'not translated')) for k in missing)
         broken.append(('spec-table', 'tools/translate/_alias_specs.py',
-                       'public callables without an argument spec: %s; specs of callables that no longer exist: %s'
-                       % (missing, stale)))
+                       'public callables without an argument spec: %s; specs of callables that no longer exist: %s%s'
+                       % (missing, stale, static)))
     translated, untranslated_req, untranslated_other, preview = [], [], [], {}
     if res is not None:
         translated = res['public_translated']
